@@ -188,6 +188,7 @@ def run_case(rs, ctx):
                                      absent_arm=("never" if ctx.index % 6 == 3 else True) if absent else False)
     if absent and not big:
         spec["params"]["is_ordered"] = True
+
     p = spec["params"]
     bandits = [("b%d" % i, gen.build(c)) for i, c in enumerate(spec["cfgs"])]
     wit = {"simulation": {k: spec[k] for k in ("cfgs", "d", "r", "X", "params")}} if not big else \
